@@ -364,6 +364,15 @@ func (g *gen) calendar(x *expr, h *hints, mode string) {
 			default:
 				fm = []string{"star", "star", "star", "any", "point"}[g.rng.Intn(5)]
 			}
+		case "sparse":
+			switch f {
+			case 4, 5:
+				fm = "point"
+			case 6:
+				fm = "star"
+			default:
+				fm = []string{"point", "any"}[g.rng.Intn(2)]
+			}
 		case "dense":
 			if f >= 4 {
 				fm = []string{"star", "star", "any"}[g.rng.Intn(3)]
